@@ -657,7 +657,12 @@ func (k Keeper) CancelAuction(ctx context.Context, msg *types.MsgCancelAuction) 
 		return err
 	}
 
-	if auction.GetAuctioneer().String() != msg.Auctioneer {
+	// Compare addresses, not strings: the same account can be written in more than one valid form
+	signer, err := sdk.AccAddressFromBech32(msg.Auctioneer)
+	if err != nil {
+		return err
+	}
+	if !auction.GetAuctioneer().Equals(signer) {
 		return sdkerrors.Wrap(errors.ErrUnauthorized, "only the auctioneer can cancel the auction")
 	}
 
